@@ -207,10 +207,14 @@ def txn_list(draw, rf, min_size=2, max_size=4):
         dim = draw(st.sampled_from(['field', 'field', 'source', 'location', 'date', 'amount', 'case']))
         if dim == 'case':
             twin = dict(base, description=lang.flip_case(base['description'], draw(st.integers(1, 65535))))
+        elif dim == 'field':
+            # every custom field present gets a DIFFERENT, non-empty value (an observable difference, not '' versus ' ')
+            keys = list(base['field']) if base.get('field') else lang.FIELD_KEYS
+            twin = dict(base, field={k: draw(st.sampled_from([v for v in lang.FIELD_VALUES + ['alice', 'REF:123 PROJ:zeta'] if v.strip() and v != (base.get('field') or {}).get(k)]))
+                                     for k in keys})
         else:
-            twin = dict(base, **{dim: draw({'field': lang.field_dict, 'source': st.one_of(st.sampled_from(lang.SOURCES), st.none()),
-                                            'location': st.one_of(st.none(), st.sampled_from(lang.LOCATIONS)), 'date': st.one_of(lang.iso_date, st.none()),
-                                            'amount': lang.amount}[dim])})
+            alt = {'source': st.sampled_from(lang.SOURCES), 'location': st.sampled_from(lang.LOCATIONS), 'date': lang.iso_date, 'amount': lang.amount}[dim]
+            twin = dict(base, **{dim: draw(alt.filter(lambda v: v != base.get(dim)))})
         txns.insert(draw(st.integers(0, len(txns))), nonzero(twin))
     return txns
 
